@@ -80,3 +80,35 @@ Definition stamp (G:graph) (purge:bool) (t:target) (rws:list N) : res (list step
   | Err e => Err e
   | Ok steps => let (o, f) := run_cmd G (fun l => l) steps rws0 in Ok (steps, o, f)
   end.
+
+(* ---------- command.stamp end to end ----------
+   _stamp_revs with the revision argument already resolved by RevisionMap._resolve_revision_number (that resolution
+   belongs to C16): `groups` = for every element of the revision tuple the revisions filter_for_lineage tests against
+   ([] for base, [id] for an id, [revision carrying the label; head] for label@head), `dests` = get_revisions(revision)
+   (None for base). *)
+Definition stamp_revs_gen (G:graph) (groups:list (list N)) (dests:option (list N)) (hds:list N) : res (list step) :=
+  match filtered_heads G hds groups with
+  | None => Err EFuel
+  | Some fh =>
+    let filtered := dedupe fh in
+    match dests with
+    | None => Ok (map (fun h => StampStep [h] [] false true) filtered)
+    | Some l => stamp_dests G filtered l
+    end
+  end.
+
+(* command.stamp(config, revision, purge=..) through env.py (engine.connect(); context.begin_transaction();
+   context.run_migrations()): the rows a FRESH connection reads afterwards.  Without --purge a row that is not a
+   revision of the history makes get_revisions(heads) fail (CommandError); with --purge the table is emptied first. *)
+Definition first_err (os:list obs) : herr :=
+  hd EOther (flat_map (fun o => match o with ObsErr e => [e] | ObsOk _ _ => [] end) os).
+Definition stamp_cmd (G:graph) (purge:bool) (groups:list (list N)) (dests:option (list N)) (rws:list N) : res (list N) :=
+  let rws0 := if purge then [] else rws in
+  if negb (subsetN rws0 (ids G)) then Err ECommand
+  else match stamp_revs_gen G groups dests rws0 with
+       | Err e => Err e
+       | Ok steps => match run_cmd G (fun l => l) steps rws0 with
+                     | (_, Some r) => Ok r
+                     | (os, None) => Err (first_err os)
+                     end
+       end.
